@@ -240,3 +240,28 @@ func VF_C08_Consumers(n, _ int) {
 	vf.BudgetReset()
 	vf.Reach("end")
 }
+
+// VF_C08_BigIntegers: neighbouring 64-bit integers near 2^53, 2^63 and 2^64 are different values: never
+// Equal in rank, never equal in comparison (whatever conversion the ranking goes through), alone or as a leaf.
+func VF_C08_BigIntegers(i, _ int) {
+	signed := [][2]int64{{1 << 53, 1<<53 + 1}, {9223372036854775807, 9223372036854775806}, {-9223372036854775808, -9223372036854775807}, {1<<62 + 1, 1 << 62}}
+	unsigned := [][2]uint64{{1 << 53, 1<<53 + 1}, {18446744073709551615, 18446744073709551614}, {1 << 63, 1<<63 + 1}}
+	k := age.Collator[any]().Make()
+	check := func(tag string, a, b any) {
+		vf.Assert(tag+"-neighbours-do-not-rank-equal", k.RankValues(a, b) != eq)
+		vf.Assert(tag+"-neighbours-do-not-compare-equal", !k.CompareValues(a, b))
+		vf.Assert(tag+"-mirror", (k.RankValues(a, b) == lt) == (k.RankValues(b, a) == gt))
+	}
+	if i < len(signed) {
+		p := signed[i]
+		check("int64", p[0], p[1])
+		check("int64-in-slice", []any{int64(1), p[0]}, []any{int64(1), p[1]})
+		check("int64-map-value", map[string]any{"a": p[0]}, map[string]any{"a": p[1]})
+		check("int", int(p[0]), int(p[1]))
+	} else if i-len(signed) < len(unsigned) {
+		p := unsigned[i-len(signed)]
+		check("uint64", p[0], p[1])
+		check("uint64-in-list", col.List[any](nil).MakeFromArray([]any{p[0]}), col.List[any](nil).MakeFromArray([]any{p[1]}))
+	}
+	vf.Reach("end")
+}
